@@ -70,7 +70,8 @@ Definition request_of (name : string) (args : list tok) : option request :=
   else if name =s "remove_hc" then Some (RRemoveHc (g 0%nat))
   else if name =s "add_listener" then
     Some (RAddListener (lkind_of (g 0%nat)) (g 1%nat)
-            (Listener (negb (g 2%nat =? 0)) (list_to_map (field_pairs (skipn 4 args))) (g 3%nat)))
+            (Listener (negb (g 2%nat =? 0)) (list_to_map (field_pairs (skipn 5 args))) (g 3%nat))
+            (negb (g 4%nat =? 0)))
   else if name =s "remove_listener" then Some (RRemoveListener (g 0%nat) (g 1%nat))
   else if name =s "activate" then Some (RActivate (g 0%nat) (g 1%nat))
   else if name =s "deactivate" then Some (RDeactivate (g 0%nat) (g 1%nat))
